@@ -222,13 +222,21 @@ Qed.
 (* ------------------------------------------------------------------ *)
 (* the graph *)
 
+Lemma last_children_In : forall d c dirs acc, In c (last_children d dirs acc) ->
+  In c acc \/ exists cs, In (d, cs) dirs /\ In c cs.
+Proof.
+  intros d c. induction dirs as [|p dirs IH]; simpl; intros acc H; [left; assumption|].
+  apply IH in H. destruct H as [H|[cs [H1 H2]]].
+  - destruct (N.eqb d (fst p)) eqn:E; [|left; assumption].
+    apply N.eqb_eq in E. right. exists (snd p). split; [|assumption]. left.
+    destruct p as [d' cs]. simpl in *. subst. reflexivity.
+  - right. exists cs. split; [right|]; assumption.
+Qed.
+
 Lemma children_of_In : forall dirs d c, In c (children_of dirs d) -> exists cs, In (d, cs) dirs /\ In c cs.
 Proof.
-  intros dirs d c H. unfold children_of in H.
-  destruct (find (fun p => N.eqb d (fst p)) (rev dirs)) as [p|] eqn:F; [|contradiction].
-  apply find_some in F. destruct F as [Hin Heq]. apply N.eqb_eq in Heq.
-  apply in_rev in Hin. exists (snd p). split; [|assumption].
-  destruct p as [d' cs]. simpl in *. subst. assumption.
+  intros dirs d c H. unfold children_of in H. apply last_children_In in H.
+  destruct H as [[]|H]. assumption.
 Qed.
 
 Lemma parents_of_In : forall dirs c d, In d (parents_of dirs c) -> exists cs, In (d, cs) dirs /\ In c cs.
